@@ -15,7 +15,7 @@ var classReps = map[string][2]string{
 	"plain": {"a", "Z"}, "space": {" ", " "}, "dq": {"\"", "\""}, "sq": {"'", "'"}, "bt": {"`", "`"}, "bs": {"\\", "\\"},
 	"lf": {"\n", "\n"}, "cr": {"\r", "\r"}, "tab": {"\t", "\t"}, "nul": {"\x00", "\x01"}, "del": {"\x7f", "\x1b"},
 	"pct": {"%", "%"}, "slash": {"/", "/"}, "n": {"n", "r"}, "t": {"t", "b"}, "x": {"x", "X"}, "u": {"u", "U"},
-	"hex": {"0", "f"}, "lb": {"{", "["}, "rb": {"}", "]"}, "u2": {"é", "ß"}, "u4": {"😀", "𝔘"}, "bad": {"\xff", "\xc3"},
+	"hex": {"0", "f"}, "lb": {"{", "["}, "rb": {"}", "]"}, "u2": {"é", "ß"}, "u3": {"€", "中"}, "repl": {"\uFFFD", "\uFFFD"}, "u4": {"😀", "𝔘"}, "bad": {"\xff", "\xc3"},
 }
 
 type StrCase struct {
